@@ -1,6 +1,8 @@
 NOTES = ('Technique family: static analysis only. Every check rebuilds a program database (MIR at opt-level 0, resolved '
          'callees) from /repo\'s working tree with a rustc_private driver and decides repository-specific rules over it; '
-         'nothing from /repo is executed. See DESIGN.md.')
+         'nothing from /repo is executed. Verdict policy: VIOLATION only for a positive refutation (with the reason, and a witness input where the '
+         'engine produces one); obligations the engines cannot decide are printed as NOT-DECIDED, recorded in the evidence and do not alarm '
+         '(behaviour-preserving rewrites must stay silent); anchors that disappear fail the coverage floor. See DESIGN.md section 9.')
 
 ENGINES = [
     {'name': 'driver', 'path': 'driver/', 'serves_properties': [], 'kind_free_text': 'rustc_private MIR dumper (RUSTC_WORKSPACE_WRAPPER)'},
@@ -27,7 +29,9 @@ CHECKS['C12'] = {
     'text': 'Exhaustive abstract interpretation: the classifier and the four dispatchers touch operand shapes only through equalities '
             'among {r1,c1,r2,c2,1}; all 52 set partitions are enumerated and for each the outcome (value/panic) and the symbolic result '
             'shape must equal the NumPy rule. Operand order and operation of every value-returning arm and of the 32 promoted '
-            'Matrix/Vector forms are decided with the element abstraction. The per-arm index pairing beyond operand order is not decided.',
+            'Matrix/Vector forms are decided with the element abstraction; for each of the 100 (dispatcher, compatible partition) pairs the arm that runs is '
+            'abstracted to out[I][J] = m1[a][b] o m2[c][d] (indices in {I,J,0}, ranges and flat strides as dimension classes) and compared with the NumPy pairing; '
+            'branch conditions outside the equality language are decided by partition invariance over all shapes <= 5 (refuted with two witness shapes).',
     'design_ref': 'DESIGN.md 4.12, 3 (E-ABS equality partitions, E-WIRE)',
     'note': 'Assumes every dimension is >= 1 (the only order fact used: 0 < dim); loops are skipped during path exploration, so panics '
             'that can only arise from element indexing inside an arm are outside D1. Trusted: Matrix::new(d,r,c) has shape (r,c) or panics (C15).',
@@ -123,8 +127,9 @@ CHECKS['C01'] = {
     'text': 'Must-pass-through/typestate clauses for all solver entry points: the Cholesky route is entered only under the predicate on the same '
             'matrix and every use of a Cholesky factor is guarded by a success test of the pivot-checking factorisation whose failure edge '
             'reaches pivoted LU (so the answer cannot depend on the routing predicate); right-hand-side column i is solved into solution column '
-            'i through the layout conversions; Matrix solvers route through Matrix::lu; LU / LU-solve / substitution siblings agree; inverses '
-            'are solves against an identity. Residual and conditioning bounds are numerical and are not decided.',
+            'i (layout algebra over transposes, row<->column-major helpers, row slices / chunks, get_col_as_vector); Matrix solvers route through Matrix::lu; '
+            'LU / LU-solve / substitution siblings agree; inverses are solves against an identity; the symmetry test behind the routing predicate is scale '
+            'consistent with an O(eps) relative tolerance; no solver branches on a scale-dependent threshold. Residual and conditioning bounds are not decided.',
     'design_ref': 'DESIGN.md 4.1, 3 (E-GRD must-check, panic-dependence, E-IDX layout typestate, E-SIB)',
     'note': 'Necessary conditions only; relies on C11 pivot-guard for the factoriser and C15 for the layout conversions and constructors.',
     'technique': 'must-pass-through on the CFG with guard terms + layout typestate over resolved calls + sibling skeletons',
@@ -137,10 +142,12 @@ CHECKS['C02'] = {
             'pdf/pmf returns 0 under a test of its argument with no narrowing cast before it; no integer division under an int->float cast in Mean/'
             'Variance; pdf/pmf non-negative under constructor invariants (interval domain, reported only when proved); overriding ln_pdf == ln(pdf) by '
             'log-normalisation; named constants equal what their name states; the Poisson factorial is formed consistently in pmf and sampler. '
-            'Dimensionless factors/exponents (e.g. the Student-t exponent), total mass and MVN are not decided.',
+            'The closed forms of pdf/pmf, mean and variance of the 13 univariate laws are compared with a table of textbook formulas by identity '
+            'testing of the extracted expression (39 instances, grid includes overflow regimes); piecewise forms whose branch guards the extraction loses, '
+            'total mass as an integral and MVN are not decided.',
     'design_ref': 'DESIGN.md 4.2, 3 (E-SYM, E-GRD support-guard, E-ABS, E-TAB)',
     'note': 'E-SYM is V-sound only (a conflict refutes homogeneity); assumes no cancellation invisible to the algebra. Seeds in cva/props/c02.py.',
-    'technique': 'dimension (homogeneity) type inference over abstractly-interpreted closed forms + control-dependence guard rules + interval abstract interpretation',
+    'technique': 'dimension (homogeneity) type inference over abstractly-interpreted closed forms + identity testing of extracted closed forms against a formula table + control-dependence guard rules + interval abstract interpretation',
 }
 
 CHECKS['C03'] = {
